@@ -138,7 +138,7 @@ func init() {
 		ID:   "C03",
 		Pkgs: []pkgRef{semver},
 		Assume: []string{
-			"partial, one stage only: how opVersionToSpan turns an operator (none, =, >, >=, <, <=, ^, ~) and a three-number version (or, without > and >=, a two-number version) without prerelease, wildcard or extension (NPM, Cargo, Default) into a span: rank, open flags and the numbers of both ends, against the range tables of node-semver and Cargo as read from their documentation (not against the tools themselves); tokenising, partial versions and x-ranges, prerelease operands, hyphen ranges, and/or lists, Intersect/canon, the match itself, PyPI, Maven, RubyGems, NuGet and Composer are not covered",
+			"partial, one stage only: how opVersionToSpan turns an operator (none, =, >, >=, <, <=, ^, ~) and a three-number version (or a two- or one-number version, or an x-range M.m.* / M.*.* under no operator, = and ^) without prerelease, wildcard or extension (NPM, Cargo, Default) into a span: rank, open flags and the numbers of both ends, against the range tables of node-semver and Cargo as read from their documentation (not against the tools themselves); tokenising, partial versions and x-ranges, prerelease operands, hyphen ranges, and/or lists, Intersect/canon, the match itself, PyPI, Maven, RubyGems, NuGet and Composer are not covered",
 			"success is part of each postcondition (a range of this shape is not rejected); this rests on the assumed frame of (*Version).Canon (trusted contract: it changes nothing that existed before the call), which stands between newSpan's comparison and its error return",
 			"∞ stands for a number above every version number of the reference (2^63-1 here); compare enters by symbol with the lemma compare.plain.nums3 proved from its body",
 			"callees under contract: (*Version).setTail, inc, all, System.MinVersion, newSpan (each verified on its own); (*Version).rebuildExtension is abstracted to its static write set at these call sites; copy, setNum, clearPre are inlined; applications of the symbolic compare are versioned by the part of the heap a static may-read analysis says compare can read",
